@@ -9,7 +9,7 @@ SCHED = "E3 stateless DFS over task orders of run_schedule through the fork/join
 HIST = "E1 explicit-state BFS over operation histories on the real World (mc/hist)"
 CHECKS = {
  "C01": ("model_checking", "§2 C01", HIST,
-   "Every operation history up to the stated depth over 7 alphabets (incl. registries of exactly 8 and of 10 components, and several operations through one Entry handle) is executed on the real World and compared after every operation with a plain map model through the public query API; exhaustive within the bounds reported in the evidence.",
+   "Every operation history up to the stated depth over 9 alphabets (incl. registries of no, exactly 8, 9 and 10 components, and several operations through one Entry handle) is executed on the real World and compared after every operation with a plain map model through the public query API; exhaustive within the bounds reported in the evidence.",
    "registry S4=(Heap,Zst,Big,Small)+2 resources; depth bounds per alphabet; values abstracted from the state hash; rustc/std/hashbrown/serde trusted"),
  "C02": ("model_checking", "§2 C02", HIST,
    "Same exploration; after every operation every identifier ever issued in that history is re-queried (contains, entry, Entries::entry, stale remove); freshly issued identifiers are compared with the full issued list, across clone/clone_from/serde.",
@@ -18,8 +18,8 @@ CHECKS = {
    "Same exploration with a per-value drop ledger: after every operation the set of live values equals the set of values the worlds hold; after the final drop of every world nothing is alive and nothing was dropped twice.",
    "values are identified by serial numbers carried by the harness component types"),
  "C05": ("model_checking", "§2 C05", HIST,
-   "Same exploration under a checking allocator (fixed-address arenas, red zones, layout check on free/realloc, poison on free, no reuse) plus token self-checks on every reference handed out, plus std's unsafe-precondition checks (debug assertions on).",
-   "out-of-bounds reads landing in live memory whose value is never inspected are invisible; aliasing-model violations out of scope"),
+   "Same exploration under a checking allocator (fixed-address arenas, red zones, layout check on free/realloc, poison on free, no reuse) plus token self-checks on every reference handed out, plus std's unsafe-precondition checks (debug assertions on); the allocator also runs in a grow-in-place mode (odd address salts).  In addition: every Serialize/Deserialize call position of a component returning Err (fault engine), and every operation sequence up to depth 2 (quick) / 3 (thorough) on registries of 0, 2, 4, 8 and 9 components executed under the Miri interpreter (reads outside an allocation, invalid references, leaks at exit).",
+   "under the checking allocator out-of-bounds reads landing in mapped memory whose value is never inspected are invisible (the Miri sequences cover them at smaller depth); parallel queries are not run under Miri"),
  "C13": ("model_checking", "§2 C13", HIST,
    "Same exploration; after every operation the read-only structural dump (hook H1) is audited: slots <-> rows bijection, free list = inactive slots, len, one table per component set, lookup tables consistent, addresses owned by this world.",
    "audit reads brood's private state through cfg(brood_verif) hook H1"),
@@ -122,6 +122,7 @@ ENGINES = [
   "kind_free_text": "exhaustive fault-position enumeration: supervisor + worker processes, each case executed on the real World inside the checking allocator with the drop ledger"},
  {"name": "sched", "path": "/verif/mc/sched", "serves_properties": ["C07", "C08", "C12"],
   "kind_free_text": "stateless exploration (DFS with prefix replay) of every admissible task order of run_schedule via the cfg(brood_verif) fork/join seam, generated schedule family x world catalogue, sequential reference + footprint oracle"},
+ {"name": "miri", "path": "/verif/mc/miri", "serves_properties": ["C05"], "kind_free_text": "exhaustive enumeration of short operation sequences on the real World, each executed in the Miri interpreter (the interpreter is the oracle for undefined behaviour; enumeration, not sampling, decides coverage)"},
  {"name": "hist", "path": "/verif/mc/hist", "serves_properties": ["C01", "C02", "C04", "C05", "C06", "C10", "C13", "C15", "C16"],
   "kind_free_text": "explicit-state BFS over operation histories executed on the real brood::World inside deterministic arenas, lock-step reference model, structural audit, drop ledger"},
 ]
